@@ -14,8 +14,8 @@ import (
 )
 
 const ruleC27 = "rapid: generated contract v1 (struct/resource interfaces, 1-2 enums, 2-5 structs/resources with 1-4 fields of primitive, optional, " +
-	"array, constant-size array, dictionary, nested composite, interface and enum types, 0-3 contract fields); every composite and every enum case is " +
-	"stored in 2 accounts; v2 = v1 under 1-3 of 26 mutation kinds (field add/remove/retype/subtle retype/reorder/rename/access/let-var, declaration " +
+	"array, constant-size array, dictionary, nested composite, interface and enum types, 0-3 contract fields); every composite and every enum case (and all of them once more inside [AnyStruct] / @[AnyResource] containers) is " +
+	"stored in 2 accounts; v2 = v1 under 1-3 of 26 mutation kinds (the kind change keeps the name and goes between struct, resource, enum, struct/resource interface and event) (field add/remove/retype/subtle retype/reorder/rename/access/let-var, declaration " +
 	"add/remove/remove with #removedType, conformance add/remove, enum case append/insert/remove/swap, enum raw type, struct<->resource, contract " +
 	"field add/remove/retype, sibling retype A->B keeping qualified spelling and wrappers, conformance swap); a share of types and conformances " +
 	"is written in qualified form (C.A) or through an imported contract (Imp.A, Imp.I), contract fields may be Capability<&T>. Update through contracts.update on both engines. If accepted: nothing stored may have lost its declaration, enum case or " +
